@@ -203,7 +203,7 @@ func mergeable(a, b V) bool {
 func (in *Interp) mergeV(c *Term, a, b V) V {
 	switch x := a.(type) {
 	case *Term:
-		return Ite(c, x, b.(*Term))
+		return in.domConst(Ite(c, x, b.(*Term)))
 	case StructV:
 		y := b.(StructV)
 		r := make(StructV, len(x))
@@ -404,6 +404,7 @@ func (in *Interp) tryMerge(fr *Frame, x *ssa.If, c *Term) bool {
 		level := in.Solver.Level()
 		pcLen := len(in.pc)
 		factLen := len(in.facts)
+		domLen := len(in.domTrail)
 		savedDefs := in.specDefs
 		in.specDefs = nil
 		savedBase := in.specBase
@@ -429,6 +430,7 @@ func (in *Interp) tryMerge(fr *Frame, x *ssa.If, c *Term) bool {
 				delete(in.factMap, in.facts[i].k)
 			}
 			in.facts = in.facts[:factLen]
+			in.domUndoTo(domLen)
 			in.curFrame = savedFrame
 			in.depth = savedDepth
 			fr.block, fr.prev = B, fr.prev
